@@ -595,11 +595,15 @@ def main_run(mod, tier, seed, only=None, replay=None):
         wall_s=round(wall, 2),
         violations=len(violations),
     )
-    os.makedirs(os.path.join(VERIF, "evidence"), exist_ok=True)
+    # VERIF_EVIDENCE_DIR: side runs (coverage measurement, seeded trees) keep
+    # their evidence apart from that of the registered command
+    evdir = os.environ.get("VERIF_EVIDENCE_DIR") or os.path.join(VERIF,
+                                                                 "evidence")
+    os.makedirs(evdir, exist_ok=True)
     # a run restricted with --only describes part of the check: it is kept
-    # apart from the evidence of the registered command
+    # apart as well
     name = f"{prop}.json" if not only else f"{prop}.partial.json"
-    with open(os.path.join(VERIF, "evidence", name), "w") as f:
+    with open(os.path.join(evdir, name), "w") as f:
         json.dump(ev, f, indent=1, default=_jsonable)
 
     print(f"[{prop}] tier={tier} seed={seed} evaluations={total.evaluations} "
